@@ -439,9 +439,10 @@ pub fn stress_world_ids(args: &[u64], out: &mut Out) {
             let barrier = &barrier;
             js.push(s.spawn(move || {
                 let mut ws = Vec::with_capacity(rounds);
-                for _ in 0..rounds {
+                for r in 0..rounds {
                     barrier.wait();
-                    let mut w = World::new();
+                    // `Default` must hand out an identity of its own just as `new` does
+                    let mut w = if r % 2 == 0 { World::new() } else { World::default() };
                     if k % 2 == 0 {
                         w.spawn((C1::new(1),));
                     } else {
